@@ -181,7 +181,7 @@ def _pairs(j, est, T, arg, idx, ds, rng, det, key):
     elif label.startswith('set'):
       r = est.set_threshold(arg_)
       j.check('C04.pairs.set_threshold-stored',
-              r is est and type(est.threshold_) is float and
+              r is est and isinstance(est.threshold_, float) and
               est.threshold_ == float(arg_), dict(det, t=arg_,
                                                   stored=est.threshold_))
     thr = est.threshold_
